@@ -6,6 +6,7 @@ import ast
 from fdlstatic import cfg as cfg_lib
 from fdlstatic.ctx import Ctx, assigned_names, kwarg
 from fdlstatic.model import AnalysisError, unparse, walk_function, walk_stmts
+from fdlstatic import roles
 from fdlstatic.report import RuleSet
 from fdlstatic.rules import common, ownrule
 
@@ -74,13 +75,31 @@ def run(ctx: Ctx, rs: RuleSet, tier: str):
   rs.declare(rule, 'every flip of the in-build flag is restored in a finally '
              'on all exits; the restored value is the initial or saved one', 4)
   writers = common.pair_rule(ctx, rs, rule, guard)
-  allowed = {
-      'fiddle._src.building._in_build':
-          'the guard itself',
+  # the guard context manager, by role: what `build` enters around the
+  # traversal (a generator function or a class with __enter__/__exit__)
+  bfn = ctx.func(BUILD)
+  guard_fns = []
+  for n in walk_function(bfn.node):
+    if isinstance(n, ast.With):
+      for it in n.items:
+        if isinstance(it.context_expr, ast.Call):
+          tq = p.resolve(it.context_expr.func, bfn)
+          if tq in p.funcs:
+            guard_fns.append(tq)
+          elif tq in p.classes:
+            guard_fns += [f'{tq}.__enter__', f'{tq}.__exit__']
+  guard_fns = [q for q in guard_fns if q in writers]
+  if not guard_fns:
+    raise AnalysisError('build() enters no context manager that sets the '
+                        'in-build flag')
+  enter_q = next((q for q in guard_fns if not q.endswith('.__exit__')),
+                 guard_fns[0])
+  allowed = {q: 'the guard itself' for q in guard_fns}
+  allowed.update({
       'fiddle._src.experimental.auto_config.auto_unconfig.make_unconfig.python_implementation':
           'documented re-entrancy for auto_unconfig: clears the flag so the '
           'inner build may run, restores the previous value in finally',
-  }
+  })
   rule_w = 'WMC.guard-writers'
   rs.declare(rule_w, 'only the known functions write the in-build flag', 2)
   for w in writers:
@@ -99,7 +118,7 @@ def run(ctx: Ctx, rs: RuleSet, tier: str):
              'before setting it', 1)
   for w in writers:
     f = p.funcs[w]
-    if w != 'fiddle._src.building._in_build':
+    if w != enter_q:
       continue
     g = ctx.cfg(f)
     flips = [n for n in g.nodes()
@@ -161,8 +180,10 @@ def run(ctx: Ctx, rs: RuleSet, tier: str):
   for n in walk_function(bf.node):
     if isinstance(n, ast.With):
       for it in n.items:
-        if isinstance(it.context_expr, ast.Call) and p.resolve(
-            it.context_expr.func, bf) in writers:
+        tq_ = p.resolve(it.context_expr.func, bf) if isinstance(
+            it.context_expr, ast.Call) else None
+        if tq_ in writers or (tq_ in p.classes and
+                              f'{tq_}.__enter__' in writers):
           withs.append(n)
   nested_names = set(bf.nested)
   for n in walk_function(bf.node):
@@ -510,14 +531,30 @@ def _message_path(ctx: Ctx, rs: RuleSet):
   if not found:
     raise AnalysisError('build._build no longer calls call_buildable')
   cb = ctx.func(cb_q)
-  mm = ctx.func(mm_q)
-  # call_buildable hands its own current_path/buildable/args/kwargs on
+  # the message function: whatever is bound (functools.partial) and handed to
+  # try_with_lazy_message around __build__ - wherever it lives
+  TWLq = 'fiddle._src.reraised_exception.try_with_lazy_message'
+  lazy_args = [it.context_expr.args[0] for n in walk_function(cb.node)
+               if isinstance(n, ast.With) for it in n.items
+               if isinstance(it.context_expr, ast.Call) and p.resolve(
+                   it.context_expr.func, cb) == TWLq and it.context_expr.args]
+  mm = None
   ok = False
-  for c in ctx.calls(cb):
-    if c.args and p.resolve(c.args[0], cb) == mm_q:
-      names = [a.id if isinstance(a, ast.Name) else None for a in c.args[1:]]
-      ok = (len(names) >= 2 and names[0] == 'current_path' and
-            names[1] == cb.params[0])
+  path_param = [x for x in cb.params if 'path' in x]
+  for la in lazy_args:
+    for e in roles.expand(cb, la, 2):
+      if isinstance(e, ast.Call) and unparse(e.func).endswith(
+          'partial') and e.args:
+        tq = p.resolve(e.args[0], cb)
+        if tq in p.funcs:
+          mm = p.funcs[tq]
+          names = [a.id if isinstance(a, ast.Name) else None
+                   for a in e.args[1:]]
+          ok = (len(names) >= 2 and names[0] in path_param and
+                names[1] == cb.params[0])
+  if mm is None:
+    mm = ctx.func(mm_q)
+  mm_q = mm.qualname
   rs.check(ok, rule, f'{cb_q}:make_message',
            '_make_message is bound to this call\'s current_path and buildable',
            ctx.loc(cb, cb.node))
